@@ -53,5 +53,12 @@ func (m *RWMutex) RUnlock() {
 	vsched.Result("")
 	vsched.AfterUnlock()
 }
+// everything else of package sync is passed through unchanged (no scheduling point)
 type WaitGroup = sync.WaitGroup
 type Once = sync.Once
+type Pool = sync.Pool
+type Map = sync.Map
+type Cond = sync.Cond
+type Locker = sync.Locker
+
+func NewCond(l Locker) *Cond { return sync.NewCond(l) }
